@@ -180,6 +180,14 @@ def judge(job, lines, full_lines):
                 probs.append(("data", "item %d delivered from the shortened stream is %s, the complete stream delivers %s there" % (k, a[k], b[k] if k < len(b) else "nothing")))
             if len(a) % ch != 0:
                 probs.append(("partial-frame", "%d items delivered in total with %d channels" % (len(a), ch)))
+    # the complete stream in short pieces is the complete stream: same answers as when it arrives in one piece
+    if job.kind in ("pieces", "bigskip") and job.route != "pipe" and "-cut" not in job.name and full_lines is not None:
+        a = [l.strip() for l in lines if l.startswith(("open=", "ret="))]
+        b = [l.strip() for l in full_lines if l.startswith(("open=", "ret="))]
+        if a != b:
+            k = next((i for i in range(min(len(a), len(b))) if a[i] != b[i]), min(len(a), len(b)))
+            probs.append(("pieces", "the complete stream delivered %s bytes at a time answers `%s`, delivered at once `%s`"
+                          % (job.route.split(":")[1], a[k][:100] if k < len(a) else "(nothing)", b[k][:100] if k < len(b) else "(nothing)")))
     end = next((l for l in lines if l.startswith("balance=")), None)
     if end is None:
         probs.append(("transcript", "no `ledger end` line"))
